@@ -212,8 +212,7 @@ def lockOp (s : State) (j : Json) : Except String (State × List (String × Json
   | "setid" => do
     let p ← getNat j "p"
     let r := setIdentity s p (← getNat j "cid") (← getNat j "nid")
-    pure (r.state, [("out", Json.str (resName r.returned)),
-      ("body", Json.str (match r.body with | some b => resName b | none => "none"))])
+    pure (r.state, [("out", Json.str (resName r.returned))])
   | "new" =>
     let r := newNode s
     pure (s, [("out", Json.str (resName r.1)), ("ident", toJson [r.2.cid, r.2.nid])])
